@@ -56,7 +56,7 @@ def specs(tier):
                                     "style": (("def", "lambda", "adef")[idx % 3] if is_async else ("def", "lambda")[idx % 2]),
                                     "err": ("default", "cls", "fac", "inst")[(idx // 2) % 4],
                                     "layout": ("grouped", "interleaved")[(idx // 8) % 2],
-                                    "foreign": foreign,
+                                    "foreign": foreign, "err_base": idx % 5 == 3,
                                 })
                                 if dbc and base and foreign is None and kind not in ("new",):
                                     # the same program with the leaf class re-created from its own namespace
